@@ -106,7 +106,8 @@ def decodeCSVF : Nat → Bytes → List Result × Term
       if fs.length ≠ 12 then ([], .err)                 -- FieldsPerRecord = 12
       else match resultOfRecord fs with
         | .ok r => let p := decodeCSVF fuel rest; (r :: p.1, p.2)
-        | _ => ([], .err)
+        | .error e => ([], if e = eEOF then .eof else .err)   -- a header block cut before its blank line: io.EOF
+        | .panic => ([], .err)
 
 /-- all results a CSV decoder returns from the stream `s`, and how the stream ended -/
 def decodeCSV (s : Bytes) : List Result × Term :=
